@@ -1324,7 +1324,15 @@ class Unicode(ConstantOpcode):
         return obj.encode("utf-8")
 
     def encode_body(self) -> bytes:
-        return raw_unicode_escape(self.arg).encode("utf-8")
+        text = self.arg
+        if isinstance(text, bytes):
+            text = text.decode("utf-8")
+        # The UNICODE argument is "raw-unicode-escape" encoded text terminated by a newline; escape
+        # per code point (not per UTF-8 byte) and protect the characters the pickle VM treats
+        # specially, exactly as pickle.py does when writing protocol 0
+        for char in ("\\", "\0", "\n", "\r", "\x1a"):
+            text = text.replace(char, f"\\u{ord(char):04x}")
+        return text.encode("raw-unicode-escape") + b"\n"
 
 
 class String(ConstantOpcode):
